@@ -104,3 +104,29 @@ func c20inject(h *verifrt.H, minPart, maxPart int) {
 	h.ClearKnown()
 	h.Cover("end")
 }
+
+func c20join(parts ...string) string { return strings.Join(parts, "/") }
+
+// VerifC20Location: two names that differ (parts of 0..partLen symbolic bytes, empty parts
+// included, no '/' inside a part) never resolve to the same storage folder on the same island:
+// the real GetFullHashPath of both, with the hash an uninterpreted function assumed free of
+// collisions (so two folders are equal exactly when the hashed inputs are).
+func VerifC20Location(h *verifrt.H) {
+	h.Stub("path/filepath.Join", c20join) // the joined parts are a constant root, a number and hex digits
+	maxPart := h.Param("partLen", 1)
+	part := func(n string) string {
+		p := h.String(n, h.Len(n+"Len", 0, maxPart))
+		h.Assume(!strings.Contains(p, "/"))
+		return p
+	}
+	s1, r1, w1 := part("s1"), part("r1"), part("w1")
+	s2, r2, w2 := part("s2"), part("r2"), part("w2")
+	h.Assume(s1 != s2 || r1 != r2 || w1 != w2)
+	a := New().Sanctuary(s1).Realm(r1).Swamp(w1)
+	b := New().Sanctuary(s2).Realm(r2).Swamp(w2)
+	pa := a.GetFullHashPath("/d", 1, 2, 16)
+	pb := b.GetFullHashPath("/d", 1, 2, 16)
+	h.Assert(pa != pb, "distinct-names-distinct-storage-folders")
+	h.Cover("end")
+}
+
